@@ -2,6 +2,7 @@ package props
 
 import (
 	"bytes"
+	"encoding/hex"
 	"fmt"
 	"os"
 	"path/filepath"
@@ -383,6 +384,83 @@ func TestC16(t *testing.T) {
 			gen.NonTrivial(src, call.name, w.Raw)
 		}
 		gen.Sample("snapshot", map[string]any{"source": src, "call": call.name, "verdict": v.Short(), "regions": len(regions)})
+	})
+
+	// (1a') every call x every size field of the message made stale (too large / too small by 1, 255, 65536) and every
+	// call on the raw entry points given the hex dump of the quote instead of the quote: nothing reachable from the
+	// caller's message or buffer changes (the calls may refuse such input)
+	gen.Direct(t, "stale-sizes-and-hex-dumps", func(t *testing.T) {
+		w := gen.NewWorld(gen.NewPKI(gen.PKISpec{Seed: "pki-B"}), gen.NewStream(gen.Seed()+91, "c16stale"))
+		w.Q.Extra = []byte{1, 2, 3, 0}
+		w.Build()
+		type adj struct {
+			name string
+			get  func(m *pb.QuoteV4) *uint32
+		}
+		fields := []adj{
+			{"signed_data_size", func(m *pb.QuoteV4) *uint32 { return &m.SignedDataSize }},
+			{"certification_data.size", func(m *pb.QuoteV4) *uint32 { return &m.SignedData.CertificationData.Size }},
+			{"qe_auth_data.parsed_data_size", func(m *pb.QuoteV4) *uint32 {
+				return &m.SignedData.CertificationData.QeReportCertificationData.QeAuthData.ParsedDataSize
+			}},
+			{"pck_certificate_chain_data.size", func(m *pb.QuoteV4) *uint32 {
+				return &m.SignedData.CertificationData.QeReportCertificationData.PckCertificateChainData.Size
+			}},
+			{"certification_data.certificate_data_type", func(m *pb.QuoteV4) *uint32 { return &m.SignedData.CertificationData.CertificateDataType }},
+		}
+		i := 0
+		for _, call := range c16Calls {
+			for _, f := range fields {
+				for _, d := range []int64{1, -1, 255, 65536, -65536} {
+					i++
+					if !gen.ShardOwns(i) {
+						continue
+					}
+					m, raw := c16Message(t, w, "built")
+					p := f.get(m)
+					if nv := int64(*p) + d; nv >= 0 && nv <= 1<<32-1 {
+						*p = uint32(nv)
+					} else {
+						continue
+					}
+					var regions []memRegion
+					messageRegions("quote.", m.ProtoReflect(), &regions)
+					before := proto.Clone(m)
+					gen.Eval()
+					v := call.run(w, m, raw)
+					rp := map[string]any{"kind": "memory", "source": "stale-sizes", "call": call.name, "field": f.name, "delta": d}
+					if v.Panicked() {
+						gen.Class("stale-size:call-crashes") // C10's business; here only what it does to the caller's message
+					}
+					if dd := changed(regions); dd != "" || !proto.Equal(before, m) {
+						gen.Fail(t, gen.Violation{Key: "message-changed:" + call.name, Oracle: "the quote message is unchanged by the call", Detail: fmt.Sprintf("message with %s off by %d, call %s: %s", f.name, d, call.name, dd), Replay: rp})
+						return
+					}
+					gen.NonTrivial("stale", call.name, f.name, d)
+					gen.Class("stale-size-sweep")
+				}
+			}
+			// the hex dump of the quote (what `xxd -p` prints), upper and lower case, with and without a trailing newline
+			for hi, dump := range []string{hex.EncodeToString(w.Raw), strings.ToUpper(hex.EncodeToString(w.Raw)), hex.EncodeToString(w.Raw) + "\n", "  " + hex.EncodeToString(w.Raw) + "\n", hex.EncodeToString(w.Raw)[:len(w.Raw)] + "zz"} {
+				i++
+				if !gen.ShardOwns(i) {
+					continue
+				}
+				raw := make([]byte, len(dump), len(dump)+64)
+				copy(raw, dump)
+				reg := capture("raw-input", raw)
+				m, _ := c16Message(t, w, "built")
+				gen.Eval()
+				call.run(w, m, raw)
+				if dd := changed([]memRegion{reg}); dd != "" {
+					gen.Fail(t, gen.Violation{Key: "writes-to-input:" + call.name + ":raw-input", Oracle: "checking and serialising never write to any byte reachable from the quote message or the raw input, including spare capacity", Detail: fmt.Sprintf("raw input = hex dump of the quote (variant %d), call %s: %s", hi, call.name, dd), Replay: map[string]any{"kind": "memory", "source": "hex-dump", "call": call.name}})
+					return
+				}
+				gen.NonTrivial("hexdump", call.name, hi)
+				gen.Class("hex-dump-input")
+			}
+		}
+		gen.Exhaustive("every call x 5 size / type fields x 5 offsets; every call x 5 hex-dump spellings of the raw input", true)
 	})
 
 	// (1b) policy and option byte strings with spare capacity.
